@@ -22,7 +22,8 @@ SPEC = {
                    "PyMatterSim.static.vector:vector_fft_corr"],
     "floors": {"participation_ratio": 400, "alignment": 1000, "phase_quotient": 150, "divergence": 1000, "curl": 500,
                "linear_field": 100, "vibrability": 300, "transform": 1000, "split_parallel": 400, "split_orthogonal": 300,
-               "split_sum": 300, "pythagoras": 1000, "average": 300, "fft_corr": 300, "spectra": 50},
+               "split_sum": 300, "pythagoras": 1000, "average": 300, "fft_corr": 300, "spectra": 50,
+               "spectra_spanning_many_decades": 30, "cell_edges_changing_between_frames": 15},
     "rule": ("fields {uniform, localised on one particle, random, linear u=Ar} x configurations x own neighbour lists x {2D,3D} x "
              "masks x integer wave-vector lists x 1..4 frames; non-trivial = N>=4; distinct = digest of (field, positions, lists, q list)"),
     "assumptions": ["every particle has >= 1 neighbour; neighbour separations below half the smallest perpendicular width",
@@ -142,6 +143,11 @@ def case_vibrability(ctx, rng):
     Q, _ = np.linalg.qr(rng.normal(size=(N * d, N * d)))
     nm = int(rng.integers(1, N * d + 1))
     om = rng.uniform(0.2, 5.0, size=nm)
+    if rng.random() < 0.35:
+        # a nearly floppy network / a jammed packing close to unjamming: strictly positive frequencies spanning many decades; the soft modes
+        # carry the dominant 1/omega^2 weight and are modes like any other
+        om = 10.0 ** rng.uniform(-5.0 if rng.random() < 0.5 else -8.0, 1.0, size=nm)
+        ctx.count("spectra_spanning_many_decades")
     ev = Q[:, :nm]
     info = lambda: {"N": N, "d": d, "modes": nm}  # noqa: E731
     vf = "vib_out.npy" if rng.random() < 0.3 else ""
@@ -175,8 +181,17 @@ def case_split(ctx, rng, wd):
     ts = np.cumsum(np.concatenate([[0], rng.integers(1, 5, size=T - 1)])) * step if uneven else step * np.arange(T)
     if uneven and len(set(np.diff(ts).tolist())) == 1:
         ts[-1] += step
+    own_cells = T >= 2 and rng.random() < 0.4
+    cells = [cell]
+    for t in range(1, T):
+        # a cell whose edges fluctuate independently from frame to frame (NPT with anisotropic coupling, uniaxial compression): every frame
+        # has its own wave vectors q = 2 pi n / L(t), and its own directions q/|q|
+        cells.append(gc.make_cell(rng, d, "ortho", lmin=4, lmax=9) if own_cells else cell)
+    if own_cells:
+        ctx.count("cell_edges_changing_between_frames")
+    Ls = [np.diag(c["H"]).copy() for c in cells]
     for t in range(T):
-        s = gc.snapshot_from(cell, rng.random((N, d)), np.ones(N, dtype=int), int(ts[t]))
+        s = gc.snapshot_from(cells[t], rng.random((N, d)), np.ones(N, dtype=int), int(ts[t]))
         f = make_field(rng, kind, s.positions, d)
         if kind == "linear":
             f = f[0]
@@ -190,11 +205,12 @@ def case_split(ctx, rng, wd):
     info = lambda: {"kind": kind, "d": d, "N": N, "T": T, "L": L, "qvectors": nv, "timesteps": ts,  # noqa: E731
                     "positions": [s.positions for s in frames] if N <= 12 else "omitted", "fields": fields if N <= 12 else "omitted"}
     ctx.case(f"split/{kind}/{d}D/T{T}", frames[0].positions, fields[0], nv, L, nontrivial=True, sample={"kind": kind, "d": d, "N": N, "T": T, "n_q": len(nv)})
-    q = 2 * np.pi * nv / L[None, :]
-    qn = np.linalg.norm(q, axis=1)
-    qh = q / qn[:, None]
-    Fs = []
+    Fs, aves, qhs = [], [], []
     for t in range(T):
+        q = 2 * np.pi * nv / Ls[t][None, :]
+        qn = np.linalg.norm(q, axis=1)
+        qh = q / qn[:, None]
+        qhs.append(qh)
         key = "vector_decomposition_sq"
         out = os.path.join(wd, "vd") if rng.random() < 0.2 else ""
         ok, res = ctx.call(key, vector_decomposition_sq, frames[t], nv.copy(), fields[t].copy(), out, data=info)
@@ -203,6 +219,7 @@ def case_split(ctx, rng, wd):
         if not ok:
             return
         per, ave = res
+        aves.append(ave)
         need = [f"q{a}" for a in range(d)] + ["q", "Sq"] + [f"FFT{a}" for a in range(d)] + [f"T_FFT{a}" for a in range(d)] + ["Sq_T"] + [f"L_FFT{a}" for a in range(d)] + ["Sq_L"]
         if not ctx.check("transform", all(c in per.columns for c in need) and len(per) == len(nv), key + "/layout", lambda: f"columns {list(per.columns)}", info):
             return
@@ -240,7 +257,8 @@ def case_split(ctx, rng, wd):
         if not ok:
             return
         Fs = np.array(Fs)                                   # (T, M, d)
-        Lp = (Fs * qh[None]).sum(axis=2)[:, :, None] * qh[None]
+        qha = np.array(qhs)                                 # (T, M, d): each frame's own directions
+        Lp = (Fs * qha).sum(axis=2)[:, :, None] * qha
         parts = {"FFT": Fs, "T_FFT": Fs - Lp, "L_FFT": Lp}
         for name, ser in parts.items():
             df = alld.get(name)
@@ -265,6 +283,11 @@ def case_split(ctx, rng, wd):
             import pandas as pd
             sp = pd.read_csv(outp + ".spectra.csv")
             ctx.check("spectra", list(sp.columns) == ["q", "Sq", "Sq_T", "Sq_L"], "vector_fft_corr/spectra", "spectra file layout", info)
+            if len({len(a) for a in aves}) == 1 and len(sp) == len(aves[0]):
+                # the averaged spectra are the frame mean of the per-frame |q| tables (as returned by the single-frame routine on each frame)
+                mean = np.mean([a[["q", "Sq", "Sq_T", "Sq_L"]].values for a in aves], axis=0)
+                ctx.check("spectra", bool(np.all(np.abs(sp.values - mean) <= 0.6e-8 + 1e-9 * np.abs(mean))), "vector_fft_corr/spectra_values",
+                          lambda: f"spectra file differs from the frame mean of the per-frame tables by {np.abs(sp.values - mean).max():.3g}", info)
         except FileNotFoundError:
             ctx.violation("vector_fft_corr/spectra_file", "no spectra file written", info())
         for f in os.listdir(wd):
@@ -273,10 +296,11 @@ def case_split(ctx, rng, wd):
     # history: the caller moves the particles of the SAME snapshot object in place (the only way to update a frozen record) and
     # decomposes again with the same wave vectors and box: the transform must belong to the configuration the object holds now
     if frames[0].positions.flags.writeable and rng.random() < 0.5:
-        newpos = cell["origin"] + rng.random((N, d)) * L
+        newpos = cell["origin"] + rng.random((N, d)) * Ls[0]
         frames[0].positions[...] = newpos
         ok, res = ctx.call("vector_decomposition_sq/updated_in_place", vector_decomposition_sq, frames[0], nv.copy(), fields[0].copy(), "", data=info)
         if ok:
+            q = 2 * np.pi * nv / Ls[0][None, :]
             Fu = (np.exp(-1j * (newpos @ q.T))[:, :, None] * fields[0][:, None, :]).sum(axis=0) / np.sqrt(N)
             Fo = res[0][[f"FFT{a}" for a in range(d)]].values.astype(complex)
             ctx.close("updated_in_place", Fo, Fu, "vector_decomposition_sq/updated_in_place", rtol=1e-9, atol=2e-8, scale=max(1.0, float(np.abs(Fu).max())),
